@@ -136,13 +136,23 @@ def gen_random(scn, rng, depth):
     return hist
 
 
-def record(scn_name, histories):
-    scn = SCENARIOS[scn_name]
-    traces = []
-    for k, h in enumerate(histories):
-        lines = master_l2.replay(scn, h)
-        traces.append(dict(tid='%s:%d' % (scn_name, k), lines=lines, history=h))
-    return traces
+def _rec_one(args):
+    scn_name, k, h = args
+    lines = master_l2.replay(SCENARIOS[scn_name], h)
+    return dict(tid='%s:%d' % (scn_name, k), lines=lines, history=h)
+
+
+def record(scn_name, histories, procs=None):
+    """Replay every history on the real Master (in worker processes: each
+    replay is independent and CPU-bound)."""
+    jobs = [(scn_name, k, h) for k, h in enumerate(histories)]
+    procs = procs or min(12, max(1, len(jobs) // 8))
+    if procs <= 1 or os.environ.get('VERIF_SERIAL'):
+        return [_rec_one(j) for j in jobs]
+    import multiprocessing
+    ctx = multiprocessing.get_context('fork')
+    with ctx.Pool(procs) as pool:
+        return pool.map(_rec_one, jobs, chunksize=4)
 
 
 def validate(traces, timeout=1200):
